@@ -1,3 +1,4 @@
+import Lm.Inst.CoreTie
 import Lm.Inv.CoreSafe
 import Lm.Inv.CoreGuards
 /-! # C16 — Stash/unstash: events come back oldest-first, exactly as many as asked -/
@@ -60,5 +61,11 @@ theorem C16_stash_appends (s s' : St) (m : ModId) (md : Mod) (e : Evt) (hm : s.m
 
 /-- events still stashed when the module stops are discarded: `reset_module` empties the stash -/
 theorem C16_stop_discards_stash (md : Mod) : md.reset.stash = [] ∧ md.reset.batch = [] := ⟨rfl, rfl⟩
+
+
+/-- tie A: the guard prefixes of the entry points this property is about, re-extracted from the source on every run,
+are the ones the model transcribes (`Lm.Inst.CoreTie`) -/
+theorem C16_guards_in_source :
+    Lm.Inst.CoreTie.slice Lm.Generated.CoreGuards.guards ["m_mod_stash", "m_mod_unstash"] = Lm.Inst.CoreTie.slice Lm.Inst.CoreTie.expected ["m_mod_stash", "m_mod_unstash"] := by decide
 
 end Lm.Props.C16
